@@ -103,7 +103,18 @@ func (a *Agent) Start(p pool.Pool) error {
 		a.mu.Unlock()
 		return ErrAlreadyStarted
 	}
+	a.started = true
 	a.mu.Unlock()
+
+	running := false
+	defer func() {
+		if !running {
+			// Failed to start, nothing is running.
+			a.mu.Lock()
+			a.started = false
+			a.mu.Unlock()
+		}
+	}()
 
 	startCtx, cancel := context.WithTimeout(context.Background(), startTimeout)
 	defer cancel()
@@ -141,8 +152,14 @@ func (a *Agent) Start(p pool.Pool) error {
 		return err
 	}
 
+	running = true
 	go func() {
-		a.waitCh <- a.serveUpdates(p)
+		err := a.serveUpdates(p)
+		// The loop ended (stopped, or a failed update): allow starting again.
+		a.mu.Lock()
+		a.started = false
+		a.mu.Unlock()
+		a.waitCh <- err
 	}()
 	return nil
 }
